@@ -156,7 +156,8 @@ def check_run(chk, case, c, writes, L, err, label):
 
 def run_dispatcher(chk, case):
     """the real AsyncoreConnectionDispatcher over a socket pair: a sender thread calling sendData per frame and the asyncore loop
-    thread's handle_write, scheduled at the lock operations and at the socket send; the peer reads the bytes"""
+    thread's handle_write, scheduled at the lock operations, at every read / write of out_buffer and at the socket send (which may accept
+    only part of the data); the peer reads the bytes"""
     import random
     import asyncore
     from gen import sendbufcfg
@@ -165,14 +166,15 @@ def run_dispatcher(chk, case):
     r = random.Random(case["seed"])
     if getattr(DA, "threading", None) is not None:
         DA.threading = coop._ThreadingProxy()
-    disp, a, b = sendbufcfg.make_dispatcher()
+    # every read / write of out_buffer is a scheduling point (the append `out_buffer = out_buffer + data` is a load and a store)
+    disp, a, b = sendbufcfg.make_dispatcher(hook=lambda kind: coop.point())
     b.setblocking(False)
     frames = [bytes(bytearray((i * 37 + j) % 251 for j in range(n))) for i, n in enumerate(case["frames"])]
     real_send = asyncore.dispatcher.send
 
     def send(self, data):
         coop.point()
-        n = real_send(self, data)
+        n = real_send(self, data[:r.choice([1, 2, 5, 1 << 16, 1 << 16, 1 << 16])])      # the socket may accept only part of it
         coop.log(("sent", bytes(data[:n])))
         return n
     asyncore.dispatcher.send = send
@@ -194,7 +196,7 @@ def run_dispatcher(chk, case):
     try:
         c.run(coop.chooser(r))
         # what the loop thread would do next: flush the rest
-        for _ in range(4):
+        for _ in range(400):
             if len(disp.out_buffer):
                 disp.handle_write()
     except coop.Deadlock as e:
